@@ -689,7 +689,9 @@ fn lex_source_into_buffer<'source: 'tokens, 'tokens: 'buffer, 'buffer>(
 					{
 						let start_of_escape = location.end - 1;
 						location.end += 1;
-						match iter.next()
+						// A backslash at the end of the line is a trailing
+						// backslash; the newline is not part of the literal.
+						match iter.next_if(|&(_, y)| y != b'\n')
 						{
 							Some((_, b'n')) => push_byte(b'\n'),
 							Some((_, b'r')) => push_byte(b'\r'),
@@ -841,7 +843,9 @@ fn lex_source_into_buffer<'source: 'tokens, 'tokens: 'buffer, 'buffer>(
 					{
 						let start_of_escape = location.end - 1;
 						location.end += 1;
-						match iter.next()
+						// A backslash at the end of the line is a trailing
+						// backslash; the newline is not part of the literal.
+						match iter.next_if(|&(_, y)| y != b'\n')
 						{
 							Some((_, b'n')) => push_byte(b'\n'),
 							Some((_, b'r')) => push_byte(b'\r'),
